@@ -390,6 +390,25 @@ func genPurity(out string, root, helpers *pkgFiles) {
 	sb.WriteString("]\n")
 	fmt.Fprintf(&sb, "def nodePoolPuts : Nat := %d\n", countCalls(helpers, "nodePool.Put"))
 
+	// NewVueContext: the v-once bookkeeping map is made for this context (not taken from a pool / a shared variable)
+	seenFresh := false
+	if fd := root.fn("NewVueContext"); fd != nil {
+		ast.Inspect(fd.Body, func(n ast.Node) bool {
+			kv, ok := n.(*ast.KeyValueExpr)
+			if !ok || exprString(kv.Key) != "seen" {
+				return true
+			}
+			if ce, ok := kv.Value.(*ast.CallExpr); ok && exprString(ce.Fun) == "make" {
+				seenFresh = true
+			}
+			return true
+		})
+	} else {
+		fail("purity", fmt.Errorf("NewVueContext not found"))
+	}
+	fmt.Fprintf(&sb, "/-- NewVueContext makes a new, empty `seen` map for every render -/\ndef seenMapMadePerRender : Bool := %s\n", b2l(seenFresh))
+	rep.Facts["seenMapMadePerRender"] = b2l(seenFresh)
+
 	// Vue.Render / RenderFragment: the stack's root map is the result of mergeFrontMatter, which builds a new map and writes only into it
 	copied := true
 	for _, m := range []string{"Render", "RenderFragment"} {
